@@ -165,3 +165,74 @@ def run_levels(facts, rep):
     else:
         rep.unresolved(R, "levels", "the definition of the layer count is not one of the recognised forms", facts.loc(p, where))
     return 1
+
+
+def run_packmeta(facts, rep):
+    """R-LWEPAIR(meta) [N]: packing refuses inputs that disagree in the metadata under which their data is combined.
+
+    pack_lwe_ciphertexts re-assembles every LWE ciphertext into an RLWE ciphertext carrying the LWE's own parms_id, scale
+    and correction factor (LWECiphertext::assemble_lwe -> Ciphertext::from_members), but moves the DATA of one of them through
+    a scratch ciphertext cloned from the first (negacyclic_shift_ps(odd.data() -> temp.data_mut())): from there on that data
+    travels under the first input's metadata, so the evaluator's own scale check / correction-factor balancing cannot see a
+    disagreement.  Hence each metadata field that assemble_lwe copies from the LWE must be compared, in a refusing check
+    inside a loop over all inputs, with the common value — as is done for parms_id.  Without it, inputs at different scales
+    (CKKS) or correction factors (BGV) are accepted and the packed values are silently wrong."""
+    RM = "R-LWEPAIR(meta)"
+    rep.rule(RM, "every metadata field assemble_lwe copies from an LWE ciphertext (parms_id, scale, correction_factor) is compared "
+             "for all inputs of pack_lwe_ciphertexts in a refusing check")
+    META = ("parms_id", "scale", "correction_factor")
+    asm = [p for p in facts.hir if p.endswith("LWECiphertext::assemble_lwe")]
+    pack = [p for p in facts.hir if p.endswith("::pack_lwe_ciphertexts")]
+    if not (rep.anchor(RM, "LWECiphertext::assemble_lwe", bool(asm)) and rep.anchor(RM, "pack_lwe_ciphertexts", bool(pack))):
+        return 0
+    asm, pack = asm[0], pack[0]
+    rep.fn(asm)
+    rep.fn(pack)
+    copied = []
+    for x in walk(facts.hir[asm]):
+        if x.get("k") == "Call" and (callee(x) or {}).get("name") == "from_members":
+            for a in x["args"]:
+                for y in walk(a):
+                    if y.get("k") == "MCall" and y.get("name") in META and not y["args"] and y["name"] not in copied:
+                        copied.append(y["name"])
+    for x in walk(facts.hir[asm]):
+        if x.get("k") == "MCall" and x.get("name", "").startswith("set_") and x["args"]:
+            for y in walk(x["args"][0]):
+                if y.get("k") == "MCall" and y.get("name") in META and y["name"] not in copied:
+                    copied.append(y["name"])
+    if not copied:
+        rep.unresolved(RM, "fields", "no metadata copied by assemble_lwe was recognised", facts.loc(asm))
+        return 0
+    body = facts.hir[pack]
+    it = facts.items[pack]
+    lw = [prm["pat"]["lid"] for prm in it["params"] if prm["pat"].get("k") == "PBind" and "LWECiphertext" in prm.get("ty", "")]
+    n = 0
+    for fld in copied:
+        n += 1
+        key = "pack/%s" % fld
+        found = None
+        for lp in walk(body):
+            if lp.get("k") != "For":
+                continue
+            src = root_local(lp["iter"])
+            if not (src and src[0] in lw):
+                continue
+            elems = {l for l, _ in __import__("facts").pat_bindings(lp["pat"])}
+            for y in walk(lp["body"]):
+                refusing = (y.get("k") == "Macro" and y.get("name") in ("assert_eq", "assert", "assert_ne", "panic")) or \
+                           (y.get("k") == "If" and facts.ty(y["th"]) == "!")
+                if not refusing:
+                    continue
+                cond = y if y.get("k") == "Macro" else y["c"]
+                if any(z.get("k") == "MCall" and z.get("name") == fld and (root_local(z["recv"]) or (None,))[0] in elems
+                       for z in walk(cond)):
+                    found = y
+        if found is not None:
+            rep.ok(RM, key, "`%s` of every input is compared in a refusing check" % fld, facts.loc(pack, found),
+                   sample={"field": fld})
+        else:
+            rep.violation(RM, key, "assemble_lwe gives each re-assembled ciphertext its LWE's own `%s`, but pack_lwe_ciphertexts never "
+                          "compares it across its inputs; the data of the odd half is moved through a scratch ciphertext cloned from "
+                          "the first input, so it is combined under the first input's `%s`: inputs that differ in it are accepted and "
+                          "the packed values are wrong" % (fld, fld), facts.loc(pack))
+    return n
